@@ -262,12 +262,13 @@ impl Default for GenOpts {
 }
 
 pub fn gen_cfg(r: &mut Rng) -> Cfg {
-    let mode = r.below(4);
+    // none / S3 / form folding / both options together
+    let mode = r.below(9);
     Cfg {
         region: r.pick(&REGIONS).to_string(),
         service: r.pick(&SERVICES).to_string(),
-        s3: mode == 1,
-        fold: mode == 2,
+        s3: mode == 1 || mode == 2 || mode == 8,
+        fold: mode == 3 || mode == 4 || mode == 8,
         reqs: Reqs {
             build: 3,
             ..Default::default()
